@@ -164,8 +164,12 @@ def run_case(case, ctx):
     theta_arr = None
     converged = False
     for sweeps in (2000, 8000):
+        late_total = (case['pot_seed'] % 3 == 0)   # as LocalInference does for a ready-made oracle: model.total = total
         with np.errstate(all='ignore'):
-            rg = m.RegionGraph(dom, cliques, total, convex=True, iters=sweeps, convergence=1e-12, damping=case['damping'])
+            rg = m.RegionGraph(dom, cliques, (3.0 if late_total else total), convex=True, iters=sweeps, convergence=1e-12, damping=case['damping'])
+            if late_total:
+                rg.total = total
+                ctx.tag('total_assigned_after_construction')
         regions = list(rg.cliques)
         if theta_arr is None:
             theta_arr = {r: rng.normal(size=[shape[attrs.index(a)] for a in r]) * case['scale'] for r in regions}
